@@ -186,8 +186,16 @@ def run_check(pid, tier, seed):
             cur["lines_hit"].update(v["lines_hit"])
     if hasattr(prop, "finalize"):
         prop.finalize(counters, violations, inconclusive)
+    # a couple of cases lost to an error of the harness itself do not make the whole run undecided (they are reported
+    # in the evidence and on stdout); more than that, or more than 1 % of the cases, does
+    ncases_run = max(1, int(counters.get("cases", 0)))
+    tolerated = len(errors) <= 2 and len(errors) <= 0.01 * ncases_run
     for e in errors[:5]:
-        inconclusive.append("harness error in %s: %s" % (e.get("where"), e.get("tb", "")[-600:]))
+        msg = "harness error in %s: %s" % (e.get("where"), e.get("tb", "")[-600:])
+        if tolerated:
+            out("NOTE " + msg.replace("\n", " | ")[:700])
+        else:
+            inconclusive.append(msg)
     # required monitors
     for name, minimum in getattr(prop, "REQUIRED", {}).get(tier, getattr(prop, "REQUIRED", {}).get("quick", {})).items():
         if counters.get(name, 0) < minimum:
@@ -234,6 +242,7 @@ def run_check(pid, tier, seed):
             "shards": len(jobs),
             "known_findings_observed": known_seen,
             "inconclusive_reasons": inconclusive,
+            "harness_errors": [("%s: %s" % (e.get("where"), e.get("tb", "")[-300:])) for e in errors[:5]],
             "verdict": "violated" if new else ("inconclusive" if inconclusive else "held-on-observed"),
             "native": native_meta,
         },
